@@ -331,6 +331,67 @@ class VerboseLevels(MainJsonStdout):
 
 
 
+class PolicyLevels(Harness):
+    """policy report (real evaluate_policy) at a raised minimum level: what is shown is a subsequence of the lines shown at level info (no line is altered,
+    e.g. by losing its first half), for passing and failing peers and an out-dated built-in policy."""
+    prop, ob = PROP, 'O3'
+    width = 64
+
+    def __init__(self, level, passing):
+        self.level, self.passing = level, passing
+        self.name = 'policylevels-%s-%s' % (level, 'pass' if passing else 'fail')
+
+    def params(self):
+        return {'level': self.level, 'passing': self.passing}
+
+    def inputs(self):
+        return {'outdated': zx.fresh_bool('od'), 'pk': 'kk'}
+
+    def render(self, M, inp, level):
+        from props.c06 import make_policy, make_kex
+        OL.fresh_tables(M)
+        aconf = M.auditconf.AuditConf('host', 22)
+        pol = make_policy(M, {'_kex': [inp['pk']] if self.passing else [inp['pk'], 'other']}, False, False)
+        pol._updated_builtin_policy_available = bool(inp['outdated'])
+        aconf.policy = pol
+        out = M.outputbuffer.OutputBuffer()
+        out.use_colors = False
+        out.level = level
+        kex = make_kex(M, {'kex': [inp['pk']]})
+        r = guarded(M.ssh_audit.evaluate_policy, out, aconf, M.banner.Banner((2, 0), 'OpenSSH_8.0', None, True), None, kex)
+        if isinstance(r, Exc):
+            return r, None
+        text = out.get_buffer()
+        if not isinstance(text, str):
+            text = zx.shims.concretize_str(text)
+        return r, text.split('\n')
+
+    def run(self, M, inp):
+        r0, a = self.render(M, inp, 'info')
+        r1, b = self.render(M, inp, self.level)
+        if isinstance(r0, Exc) or isinstance(r1, Exc):
+            return {'exc': r0 if isinstance(r0, Exc) else r1}
+        i = 0
+        for ln in b:
+            while i < len(a) and a[i] != ln:
+                i += 1
+            if i == len(a):
+                return {'subsequence': False, 'extra': ln[:40], 'same_verdict': r0 == r1}
+            i += 1
+        return {'subsequence': True, 'extra': None, 'same_verdict': r0 == r1}
+
+    def obs_key(self, obs):
+        return {k: v for k, v in obs.items() if k != 'extra'} if isinstance(obs, dict) else obs
+
+    def check(self, inp, obs):
+        if 'exc' in obs:
+            yield 'no-exception', False
+            return
+        yield 'raised-level-only-removes-lines', obs['subsequence']
+        yield 'same-verdict', obs['same_verdict']
+
+
+
 SEED_PEERS = {
     'strict-cbc-dups': {'kex': ['curve25519-sha256', 'kex-strict-s-v00@openssh.com'], 'key': ['ssh-ed25519', 'ssh-rsa'],
                         'enc': ['chacha20-poly1305@openssh.com', 'aes128-cbc', 'aes128-cbc', '3des-cbc', 'aes128-ctr'],
@@ -507,6 +568,9 @@ def tasks(tier):
     for arch in ('weak', 'probes-refused', 'proto-1.99'):
         for lvl in ('warn', 'fail'):
             T.append(VerboseLevels(arch, lvl))
+    for lvl in ('warn', 'fail'):
+        for passing in (True, False):
+            T.append(PolicyLevels(lvl, passing))
     for peer in SEED_PEERS:
         for js in (False, True):
             T.append(HashSeedOrder(peer, js))
@@ -528,6 +592,8 @@ def harness_by_name(name, params):
         return HashSeedOrder(p['peer'], p['json'])
     if k == 'mainjson':
         return MainJsonStdout(p['arch'])
+    if k == 'policylevels':
+        return PolicyLevels(p['level'], p['passing'])
     if k == 'verboselevels':
         return VerboseLevels(p['arch'], p['level'])
     if k == 'bufferfilter':
